@@ -1,6 +1,6 @@
 (* Property C17: saving and loading reproduces an equal object.
    Only statements; every proof is `exact <lemma>`. *)
-From TenpyV Require Import Base.Prelude Model.Heap Proofs.HeapP Model.LegFormats Proofs.LegFormatsP.
+From TenpyV Require Import Base.Prelude Model.Heap Proofs.HeapP Proofs.HeapP2 Model.LegFormats Proofs.LegFormatsP.
 From TenpyV Require Import Model.StateSpec Gen.G_states Proofs.StatesP.
 From Coq Require Import String.
 Close Scope Z_scope.
@@ -29,13 +29,35 @@ Theorem T17_save_total : forall h r, closed h -> r < List.length h ->
   exists h1 r1, save (S (List.length h)) h r = Some (h1, r1).
 Proof. exact save_total. Qed.
 
-(* PARTIAL: totality of `load` is proved only through T17_save_total's argument for heaps in which no node is late
-   (load = save there).  Missing: with late tuples the recursion depth is bounded by nodes + 1 only when no tuple is
-   re-entered while it is being loaded; this is checked by computation (Example below, correspondence stream) but
-   not proved. *)
-Theorem T17_load_total_partial : forall h r, closed h -> r < List.length h ->
-  exists h1 r1, copy never (S (List.length h)) h r = Some (h1, r1).
-Proof. exact save_total. Qed.
+(* loading is total.  A late node (tuple: memoised AFTER its children) that is not in the memo yet is entered again
+   when a cycle leads back to it, so nodes + 1 is not enough fuel (T17_load_reentry below).  On every closed heap in
+   which no tuple lies on a reference cycle consisting of tuples only (late_reach x x; python cannot build such a
+   tuple - a cycle has to pass through a list, dict, set or instance) fuel = (nodes + 1)^2 suffices: on the stack of
+   active visits every early node occurs at most once and the late nodes between two early ones form a path of
+   distinct nodes. *)
+Theorem T17_load_total : forall h r, closed h -> no_late_cycle is_tuple h -> r < List.length h ->
+  exists h1 r1, load (S (List.length h) * S (List.length h)) h r = Some (h1, r1).
+Proof. exact load_total. Qed.
+
+(* the same for any choice of late nodes (pickle's and deepcopy's reductions) *)
+Theorem T17_copy_total : forall late h, closed h -> no_late_cycle late h -> forall r, r < List.length h ->
+  exists h1 r1, copy late (S (List.length h) * S (List.length h)) h r = Some (h1, r1).
+Proof. exact copy_total. Qed.
+
+(* total correctness of the model round trip: on every closed heap without a tuple-only cycle save-then-load returns,
+   and what it returns is isomorphic to the reachable part of the original *)
+Theorem T17_roundtrip_total : forall h r, closed h -> no_late_cycle is_tuple h -> r < List.length h ->
+  exists h2 r2 m, roundtrip (S (List.length h)) (S (List.length h) * S (List.length h)) h r = Some (h2, r2) /\
+                  iso m h r h2 r2.
+Proof. exact roundtrip_total. Qed.
+
+(* Model/Heap.v:check_case calls roundtrip (S (length h)) (S (length h) * S (length h)): exactly the fuel of
+   T17_roundtrip_total above, so a `None` of the model in the correspondence stream is never an artefact of the
+   fuel.  For tuples whose elements are not tuples (late_flat) already the linear fuel 2 * length h + 2 suffices;
+   for nested tuples on cycles it can be too small (Example T17_linear_fuel_not_general). *)
+Theorem T17_roundtrip_total_flat_tuples : forall h r, closed h -> late_flat is_tuple h -> r < List.length h ->
+  exists h2 r2 m, roundtrip (S (List.length h)) (2 * List.length h + 2) h r = Some (h2, r2) /\ iso m h r h2 r2.
+Proof. exact roundtrip_total_flat. Qed.
 
 (* LegCharge encodings, any number of blocks / charges *)
 Theorem T17_legcharge_formats :
@@ -79,6 +101,35 @@ Proof.
   - split; [vm_compute; reflexivity|]. vm_compute. eexists. eexists. split; reflexivity.
 Qed.
 
+(* the heap of T17_example_heap has flat tuples: T17_roundtrip_total_flat_tuples applies to it *)
+Example T17_example_flat :
+  late_flat is_tuple [NList [1; 2; 1; 0]; NTuple [3; 3]; NDict [(4, 0); (5, 6)]; NList [7]; Leaf 10%Z; Leaf 11%Z;
+                      NObj 1%Z [(2%Z, 0); (3%Z, 1)]; Leaf 12%Z].
+Proof.
+  intros x c nd' [nd [Hn [Hl Hin]]] Hc.
+  do 8 (destruct x as [|x]; [inversion Hn; subst nd; cbn in Hl, Hin; try discriminate;
+                             repeat (destruct Hin as [<-|Hin]; [cbn in Hc; inversion Hc; reflexivity|]); contradiction|]).
+  destruct x; discriminate.
+Qed.
+
+(* nested tuples on cycles through lists (T0 = (T1,), T1 = (L2, L3), L2 = [T0], L3 = [T0, 7]): the hypotheses of
+   T17_load_total hold, the tuples are re-entered while they are being loaded - nodes + 1 is not enough fuel -, and
+   the loaded heap has the canonical form of the original *)
+Example T17_load_reentry :
+  closed ex_reentry /\ no_late_cycle is_tuple ex_reentry /\ ~ late_flat is_tuple ex_reentry /\
+  load (S (List.length ex_reentry)) ex_reentry 0 = None /\
+  exists h1, load (S (List.length ex_reentry) * S (List.length ex_reentry)) ex_reentry 0 = Some (h1, 3) /\
+             canon h1 3 = canon ex_reentry 0.
+Proof. exact ex_reentry_ok. Qed.
+
+(* ... and the linear fuel of check_case is not enough for every heap with NESTED tuples on cycles (it is for flat
+   tuples, T17_roundtrip_total_flat_tuples): three nested tuples on cycles through three lists, rooted at the tuple *)
+Example T17_linear_fuel_not_general :
+  closed ex_deep /\ no_late_cycle is_tuple ex_deep /\
+  load (2 * List.length ex_deep + 2) ex_deep 0 = None /\
+  exists h1 r1, load (S (List.length ex_deep) * S (List.length ex_deep)) ex_deep 0 = Some (h1, r1).
+Proof. exact ex_deep_ok. Qed.
+
 Example T17_example_leg :
   let l := mkLeg 5%Z 1%Z [0; 2; 3; 5]%Z [[1; 0]; [-1; 1]; [0; 0]]%Z true false in
   leg_wf l /\ to_compact l = mkCompact 5%Z 1%Z 3 true false [[0; 2; 1; 0]; [2; 3; -1; 1]; [3; 5; 0; 0]]%Z /\
@@ -89,7 +140,10 @@ Print Assumptions T17_copy_iso.
 Print Assumptions T17_roundtrip_iso.
 Print Assumptions T17_identity_preserved.
 Print Assumptions T17_save_total.
-Print Assumptions T17_load_total_partial.
+Print Assumptions T17_load_total.
+Print Assumptions T17_copy_total.
+Print Assumptions T17_roundtrip_total.
+Print Assumptions T17_roundtrip_total_flat_tuples.
 Print Assumptions T17_legcharge_formats.
 Print Assumptions T17_state_orders.
 Print Assumptions T17_state_classes_present.
